@@ -52,7 +52,7 @@ Definition handle_ok (s r c : nat) (reqs : list req)
     end.
 
 Ltac case_req q :=
-  destruct q as [md qb rt sb cl]; destruct md, qb, rt, sb, cl.
+  destruct q as [md qh qe qs rt sh se cl]; destruct md, qh, qe, qs, rt, sh, se, cl.
 
 Lemma handle_refines : forall reqs s r c,
   handle_ok s r c reqs (handle fixed s (mkSt r c [] false) reqs).
